@@ -85,6 +85,14 @@ func ModStmts() []Stmt {
 	add("retract", "// all bad\nretract (\n\tv1.0.0\n\tv1.1.0\n)\n")
 	addFix("retract", "retract [v1, v1.1]\n")
 	add("retract", "retract [v1.2.0, v1.2.0]\n")
+	// comments that end in white space other than blank and tab (rationale and deprecation texts are
+	// taken from comments)
+	add("retract", "retract v1.0.0 // why\u00a0\n")
+	add("retract", "// because\u3000\nretract v1.0.0\n")
+	add("retract", "retract v1.0.0 // cr\r\r\n")
+	add("retract", "retract v1.0.0 // vt\v\n")
+	add("module", "// Deprecated: use n\u00a0\nmodule example.com/m\n")
+	add("module", "module example.com/m // Deprecated: gone\u2003\n")
 	add("retract", "retract (\n\t[v1.0.0, v1.0.0] // same\n\tv1.3.0\n)\n")
 	addFix("retract", "retract [v1.2, v1.2]\n")
 	addFix("retract", "retract v1 // short\n")
